@@ -1,7 +1,8 @@
 /-
   ListBase: the vocabulary the translator targets for `src/value/list.rs`
   (property C15): `usize` arithmetic with explicit overflow, the lock
-  references and the step alphabet of `ErasedList::concat`.
+  references and the step alphabet of `ErasedList::concat`, byte strings and
+  `[S]::join` for the `join` binding.
 
   Core Lean only: linked into the driver executable.
 -/
@@ -58,6 +59,72 @@ inductive CStep
   /-- `drop(raw)` (or the end of its scope) -/
   | unlockNew
   deriving DecidableEq, Repr, Inhabited
+
+/-! ### strings (the `List[String]` bindings: `join`)
+
+A Rust `String` / `&str` / `RotoString` is its sequence of UTF-8 bytes; the
+operations below are the vocabulary the translator target `listjoin` uses for
+the body of the `join` binding of `src/runtime/basic.rs`. -/
+
+/-- a Rust string: its UTF-8 bytes -/
+abbrev Str := List Nat
+
+/-- `String::new()` / `""` -/
+def strNew : Str := []
+
+/-- `String::push_str` / `+=` -/
+def strPush (s t : Str) : Str := s ++ t
+
+/-- `str::is_empty` -/
+def strIsEmpty (s : Str) : Bool := s.isEmpty
+
+/-- `str::len` (bytes) -/
+def strLen (s : Str) : Nat := s.length
+
+/-- the tail of `[S]::join` as std's `join_generic_copy` writes it: for every
+    remaining element, the separator followed by the element -/
+def sliceJoinRest (sep : Str) : List Str → Str
+  | [] => []
+  | y :: rest => sep ++ (y ++ sliceJoinRest sep rest)
+
+/-- `[S]::join(&sep)` of Rust's std (`join_generic_copy`): nothing for the
+    empty slice; otherwise the first element, then separator + element for
+    every further one -/
+def sliceJoin : List Str → Str → Str
+  | [], _ => []
+  | x :: rest, sep => x ++ sliceJoinRest sep rest
+
+/-- `[S]::concat()` -/
+def sliceConcat (l : List Str) : Str := l.flatten
+
+/-- the string an element value stands for in a `List[String]`: the harness
+    builds the same strings (`<RotoString as Elem>::make`). Small values are
+    the boundary strings — empty, a proper prefix of another element, a
+    separator character, multi-byte, differing in case only, trailing blank —
+    every other value `v` is `"s<v>"`. -/
+def elemStr (v : Nat) : Str :=
+  match v with
+  | 0 => []                        -- ""
+  | 1 => [115, 49]                 -- "s1"
+  | 2 => [115]                     -- "s"
+  | 3 => [195, 169]                -- "é"
+  | 4 => [44]                      -- ","
+  | 5 => [83, 49]                  -- "S1"
+  | 6 => [115, 49, 32]             -- "s1 "
+  | 7 => [226, 134, 146, 120]      -- "→x"
+  | v => 115 :: (Nat.toDigits 10 v).map Char.toNat
+
+/-- integer types an `as` cast in a list binding can go from / to -/
+inductive CastTy
+  | u8 | u16 | u32 | u64 | usize | i8 | i16 | i32 | i64 | isize
+  /-- not a parameter (an expression whose type the translator does not track) / any other type -/
+  | other
+  deriving DecidableEq, Repr, Inhabited
+
+/-- the cast keeps every list length / index (64-bit targets): 64 bits, unsigned -/
+def CastTy.keepsIndices : CastTy → Bool
+  | .u64 | .usize => true
+  | _ => false
 
 end RotoV.ListM
 
